@@ -9,6 +9,7 @@ import (
 	"errors"
 	"fmt"
 	"os"
+	"os/exec"
 	"reflect"
 	"runtime/debug"
 	"strings"
@@ -544,8 +545,9 @@ type c05Case struct {
 	Value     string  `json:"value"`
 	Ctx       string  `json:"ctx"`
 	Box       string  `json:"box"`
-	Src       string  `json:"src"`  // kind "raw" (used by hand to minimise a finding): the source itself
-	Tmpl      bool    `json:"tmpl"` // kind "raw": template (index.html) or program (main.go)
+	Isolate   bool    `json:"isolate"` // run the case in a child process (it may kill the process instead of panicking)
+	Src       string  `json:"src"`     // kind "raw" (used by hand to minimise a finding): the source itself
+	Tmpl      bool    `json:"tmpl"`    // kind "raw": template (index.html) or program (main.go)
 }
 
 func faultCase(k *c05Case) map[string]any {
@@ -627,7 +629,43 @@ func urlCase(k *c05Case) map[string]any {
 	return o
 }
 
+// isolated runs one case in a child process (this same binary with C05_CHILD=1, the case on stdin, the observation
+// on stdout).  If the child dies - the Go run time kills a process whose goroutine stack overflows, no recover()
+// sees that - the observation says so: outcome "processdeath".
+func isolated(raw json.RawMessage, k *c05Case) map[string]any {
+	ctx, cancel := context.WithTimeout(context.Background(), 5*time.Minute)
+	defer cancel()
+	cmd := exec.CommandContext(ctx, os.Args[0])
+	cmd.Env = append(os.Environ(), "C05_CHILD=1")
+	cmd.Stdin = bytes.NewReader(raw)
+	var stdout, stderr bytes.Buffer
+	cmd.Stdout, cmd.Stderr = &stdout, &stderr
+	err := cmd.Run()
+	var o map[string]any
+	if err == nil && json.Unmarshal(stdout.Bytes(), &o) == nil {
+		return o
+	}
+	first, _, _ := strings.Cut(stderr.String(), "\n")
+	if i := strings.Index(stderr.String(), "fatal error:"); i >= 0 {
+		first, _, _ = strings.Cut(stderr.String()[i:], "\n")
+	}
+	cx := showContexts[k.Ctx]
+	return map[string]any{"id": k.ID, "kind": "show", "value": k.Value, "ctx": k.Ctx, "box": k.Box, "src": cx[1],
+		"outcome": "processdeath", "msg": clip(fmt.Sprintf("child: %v: %s", err, first), 300), "out": ""}
+}
+
+func child() {
+	debug.SetMaxStack(64 << 20) // die early and cheaply on unbounded recursion
+	var k c05Case
+	drv.Must(json.NewDecoder(os.Stdin).Decode(&k))
+	drv.Must(json.NewEncoder(os.Stdout).Encode(showCase(&k)))
+}
+
 func main() {
+	if os.Getenv("C05_CHILD") != "" {
+		child()
+		return
+	}
 	drv.Main(&drv.Sub{
 		Each: func(c json.RawMessage, seed int64) []any {
 			var k c05Case
@@ -636,6 +674,9 @@ func main() {
 				return []any{urlCase(&k)}
 			}
 			if k.Kind == "show" {
+				if k.Isolate {
+					return []any{isolated(c, &k)}
+				}
 				return []any{showCase(&k)}
 			}
 			if k.Kind == "raw" {
